@@ -163,6 +163,16 @@ def run(cmd, timeout, mem_gb, cwd=None, stdout_path=None, env=None):
 # fits a SAT back end (DESIGN.md 2.2).  Applied to a scratch copy of the current /repo source on every
 # run; every pattern must match exactly once or the run is a machinery error.
 SHRINKS = {
+    # only the union's other member and the selector lists: the code tables keep their production size
+    "encoder_bucket": ("encode.c", [
+        (r"int32_t bucket\[65536 \+ 256\];", "int32_t bucket[16];"),
+        (r"uint8_t selector\[18000 \+ 1 \+ 1\];", "uint8_t selector[8];"),
+        (r"uint8_t selectorMTF\[18000 \+ 1 \+ 7\];", "uint8_t selectorMTF[8];"),
+        # CBMC 6.11 loses field updates of union members when a symbolic-index write into the union intervenes (observed:
+        # tmap_old2new[] writes of generate_prefix_code() vanished -> false alarm).  The code under the harness never reads
+        # one member after writing the other, so the union is turned into a struct for the solver build.
+        (r"  union \{\n    struct \{\n      uint8_t selector", "  struct {\n    struct {\n      uint8_t selector"),
+    ]),
     "encoder_scratch": ("encode.c", [
         (r"int32_t bucket\[65536 \+ 256\];", "int32_t bucket[16];"),
         (r"uint8_t selector\[18000 \+ 1 \+ 1\];", "uint8_t selector[8];"),
@@ -245,6 +255,12 @@ def compile_goto(ob, scratch, witness):
         for f in ob.remove_bodies:
             cmd += ["--remove-function-body", f]
         rc, o2, _, _ = run(cmd + [out, out2], 300, 4, cwd=scratch)
+        if rc != 0 or not os.path.exists(out2):
+            return None, o2
+        os.replace(out2, out)
+        # a call to a body-less function is an error in CBMC 6: give the cut functions "any return value, no effects"
+        rc, o2, _, _ = run(["goto-instrument", "--generate-function-body", "|".join(ob.remove_bodies),
+                            "--generate-function-body-options", "nondet-return", out, out2], 300, 4, cwd=scratch)
         if rc != 0 or not os.path.exists(out2):
             return None, o2
         os.replace(out2, out)
